@@ -179,3 +179,140 @@ func checkChildAccessorsGuarded(r *Run) {
 	}
 	r.Ob(rule, "frontend:scanned", token.NoPos, true, "%d method calls on child accessor results examined, %d unguarded", scanned, bad)
 }
+
+// checkDiscriminatorsNonNil (R11): a visitor that returns "whichever of my result fields is set" (`if s.F != nil
+// { return s.F }` … `return s.G`) relies on every producer of F storing a non-nil value. A producer that copies the
+// field of a child visitor is non-nil only if that child's constructor allocates the field: a child that allocates
+// lazily, on the first element, hands over nil for the empty literal, the parent falls through to another field, and
+// the model gets a typed nil where an empty map or list belongs.
+func checkDiscriminatorsNonNil(r *Run) {
+	const rule = "C08-R11-discriminator-non-nil"
+	fp := r.MustPkg("cypher/frontend")
+	info := fp.TypesInfo
+	// constructors: functions returning &T{…}; allocated[T][field] = the literal sets the field to a composite literal / make / New…
+	allocated := map[string]map[string]bool{}
+	hasCtor := map[string]bool{}
+	for _, fd := range FuncDecls(fp) {
+		if fd.Body == nil || fd.Recv != nil {
+			continue
+		}
+		ast.Inspect(fd.Body, func(x ast.Node) bool {
+			rs, ok := x.(*ast.ReturnStmt)
+			if !ok || len(rs.Results) != 1 {
+				return true
+			}
+			u, ok := ast.Unparen(rs.Results[0]).(*ast.UnaryExpr)
+			if !ok || u.Op != token.AND {
+				return true
+			}
+			cl, ok := u.X.(*ast.CompositeLit)
+			if !ok {
+				return true
+			}
+			tn := namedName(info.TypeOf(cl))
+			hasCtor[tn] = true
+			if allocated[tn] == nil {
+				allocated[tn] = map[string]bool{}
+			}
+			for _, el := range cl.Elts {
+				kv, ok := el.(*ast.KeyValueExpr)
+				if !ok {
+					continue
+				}
+				k, ok := kv.Key.(*ast.Ident)
+				if !ok {
+					continue
+				}
+				switch v := ast.Unparen(kv.Value).(type) {
+				case *ast.CompositeLit:
+					allocated[tn][k.Name] = true
+				case *ast.UnaryExpr:
+					if v.Op == token.AND {
+						allocated[tn][k.Name] = true
+					}
+				case *ast.CallExpr:
+					if id, ok := v.Fun.(*ast.Ident); ok && id.Name == "make" {
+						allocated[tn][k.Name] = true
+					} else if fn := calleeOf(info, v); fn != nil && strings.HasPrefix(fn.Name(), "New") {
+						allocated[tn][k.Name] = true
+					}
+				}
+			}
+			return true
+		})
+	}
+	n := 0
+	for _, f := range fp.Syntax {
+		for _, d := range f.Decls {
+			fd, ok := d.(*ast.FuncDecl)
+			if !ok || fd.Body == nil || fd.Recv == nil || len(fd.Recv.List[0].Names) != 1 {
+				continue
+			}
+			recv := info.Defs[fd.Recv.List[0].Names[0]]
+			owner := recvTypeName(fd.Recv.List[0].Type)
+			// discriminating getter: `if s.F != nil { return s.F }`
+			var fields []string
+			for _, st := range fd.Body.List {
+				ifs, ok := st.(*ast.IfStmt)
+				if !ok || len(ifs.Body.List) != 1 {
+					continue
+				}
+				be, ok := ast.Unparen(ifs.Cond).(*ast.BinaryExpr)
+				if !ok || be.Op != token.NEQ || !isNilIdent(info, ast.Unparen(be.Y)) {
+					continue
+				}
+				sel, ok := ast.Unparen(be.X).(*ast.SelectorExpr)
+				if !ok {
+					continue
+				}
+				if id, ok := ast.Unparen(sel.X).(*ast.Ident); !ok || info.Uses[id] != recv {
+					continue
+				}
+				if rs, ok := ifs.Body.List[0].(*ast.ReturnStmt); ok && len(rs.Results) == 1 && exprString(r.Fset, rs.Results[0]) == exprString(r.Fset, be.X) {
+					fields = append(fields, sel.Sel.Name)
+				}
+			}
+			for _, field := range fields {
+				// producers: assignments owner.field = … anywhere in the package
+				for _, m := range methodsOfType(fp, owner) {
+					mrecv := recvObj(fp, m)
+					ast.Inspect(m.Body, func(x ast.Node) bool {
+						as, ok := x.(*ast.AssignStmt)
+						if !ok || len(as.Lhs) != len(as.Rhs) {
+							return true
+						}
+						for i, lhs := range as.Lhs {
+							sel, ok := ast.Unparen(lhs).(*ast.SelectorExpr)
+							if !ok || sel.Sel.Name != field {
+								continue
+							}
+							if id, ok := ast.Unparen(sel.X).(*ast.Ident); !ok || info.Uses[id] != mrecv {
+								continue
+							}
+							n++
+							construct := owner + "." + field + "←" + m.Name.Name
+							rhs := ast.Unparen(as.Rhs[i])
+							// X.Exit().(*Child).G
+							if csel, ok := rhs.(*ast.SelectorExpr); ok {
+								if ta, ok := ast.Unparen(csel.X).(*ast.TypeAssertExpr); ok {
+									child := namedName(info.TypeOf(ta.Type))
+									if hasCtor[child] && allocated[child][csel.Sel.Name] {
+										r.Pass(rule, construct, as.Pos(), "taken from %s.%s, which every constructor of %s allocates", child, csel.Sel.Name, child)
+									} else {
+										r.Fail(rule, construct, as.Pos(), "%s.%s selects its result by `%s != nil`, and this producer stores %s.%s, which the constructor of %s does not allocate: for an empty literal the child never allocates it, nil is stored, the getter falls through to another field and returns a typed nil — the parse succeeds with a hole in the model that the emitter dereferences", owner, fd.Name.Name, field, child, csel.Sel.Name, child)
+									}
+									continue
+								}
+							}
+							r.Pass(rule, construct, as.Pos(), "assigned from a freshly built value")
+						}
+						return true
+					})
+				}
+			}
+		}
+	}
+	if n == 0 {
+		r.Undecide("C08-R11: no visitor selects its result by a nil test on fields that other handlers assign")
+	}
+}
